@@ -314,7 +314,12 @@ func (f *Frame) execBlock(c *cursor, b *ssa.BasicBlock) {
 						f.siteRets = map[string]sval{}
 					}
 					for _, name := range strings.Fields(f.pendingSiteRet) {
-						f.siteRets[name] = sv
+						nv := sv
+						// a site anchored at several calls: the result of the one reached on this path
+						if old, ok := f.siteRets[name]; ok && old.t.Sort == sv.t.Sort && old.t.S != sv.t.S {
+							nv = sval{f.e.define("siteret."+name, ite(c.reach, sv.t, old.t)), sv.typ}
+						}
+						f.siteRets[name] = nv
 					}
 				}
 				if f.siteAfter == nil {
